@@ -1,6 +1,7 @@
 package c07
 
 import (
+	"encoding/hex"
 	"fmt"
 	"reflect"
 	"sort"
@@ -178,7 +179,7 @@ type ObjSnap struct {
 // SnapObjects decodes every oid: record stamped with pkgPath's PkgID.
 func SnapObjects(v *audit.View, pkgPath string) (*ObjSnap, error) {
 	pid := gno.PkgIDFromPkgPath(pkgPath)
-	kv := v.BasePrefix("oid:" + pid.String() + ":")
+	kv := v.BasePrefix("oid:" + hex.EncodeToString(pid.Hashlet[:]) + ":")
 	s := &ObjSnap{Payload: map[string]string{}, Raw: map[string]string{}}
 	for _, k := range kv.Keys {
 		val := kv.M[k]
